@@ -101,29 +101,20 @@ Check C14_roundtrip_partial : forall b off n nxt buf kids,
     get_domain (buf ++ e) (lenN buf) = Ok (n, lenN buf + lenN e).
 Print Assumptions C14_roundtrip_partial.
 
-(* Record level, byte exact, for the kinds whose data is one name (CNAME, NS,
-   PTR): owner name and data name are both compressed against the dictionary
-   (the data name at its final offset, after type/class/ttl/rdlength); get_rr
-   on the final buffer returns the record and consumes exactly its octets; the
-   dictionary stays valid.  The other eight kinds follow the same pattern
-   (get_name_written + get_u16_be16/get_u32_be32) and are not yet done. *)
-Theorem C14_rr_roundtrip_partial : forall buf kids r d,
-  0 < lenN buf -> Forall (tree_ok buf []) kids ->
-  wf_name (r_name r) = true -> wf_name d = true ->
-  r_class r < 65536 -> r_ttl r < 4294967296 ->
-  (r_type r = T_CNAME /\ r_data r = RCName d \/ r_type r = T_NS /\ r_data r = RNs d \/
-   r_type r = T_PTR /\ r_data r = RPtr d) ->
+(* Record level, byte exact, all eleven kinds of record data: owner name and
+   every name inside the data are compressed against the dictionary (data names
+   at their final offsets, after type/class/ttl/rdlength); the encoder does not
+   panic; get_rr on the final buffer -- whatever follows the record -- returns
+   the record and consumes exactly its octets; the dictionary stays valid. *)
+Theorem C14_rr_roundtrip : forall buf kids r,
+  0 < lenN buf -> Forall (tree_ok buf []) kids -> wf_rr r = true ->
   exists b kids', push_rr (lenN buf) kids r = Ok (b, kids') /\
-    Forall (tree_ok (buf ++ b) []) kids' /\
-    get_rr (buf ++ b) (b, lenN buf) = Ok (r, ([], lenN buf + lenN b)).
-Proof. exact rr_one_name_roundtrip. Qed.
-Check C14_rr_roundtrip_partial : forall buf kids r d,
-  0 < lenN buf -> Forall (tree_ok buf []) kids ->
-  wf_name (r_name r) = true -> wf_name d = true ->
-  r_class r < 65536 -> r_ttl r < 4294967296 ->
-  (r_type r = T_CNAME /\ r_data r = RCName d \/ r_type r = T_NS /\ r_data r = RNs d \/
-   r_type r = T_PTR /\ r_data r = RPtr d) ->
+    Forall (tree_ok (buf ++ b) []) kids' /\ 0 < lenN b /\
+    forall post, get_rr (buf ++ b ++ post) (b ++ post, lenN buf) = Ok (r, (post, lenN buf + lenN b)).
+Proof. exact rr_written. Qed.
+Check C14_rr_roundtrip : forall buf kids r,
+  0 < lenN buf -> Forall (tree_ok buf []) kids -> wf_rr r = true ->
   exists b kids', push_rr (lenN buf) kids r = Ok (b, kids') /\
-    Forall (tree_ok (buf ++ b) []) kids' /\
-    get_rr (buf ++ b) (b, lenN buf) = Ok (r, ([], lenN buf + lenN b)).
-Print Assumptions C14_rr_roundtrip_partial.
+    Forall (tree_ok (buf ++ b) []) kids' /\ 0 < lenN b /\
+    forall post, get_rr (buf ++ b ++ post) (b ++ post, lenN buf) = Ok (r, (post, lenN buf + lenN b)).
+Print Assumptions C14_rr_roundtrip.
